@@ -422,6 +422,10 @@ class SpecLib:
         raise Unsupported("membership in %r" % (box,))
 
     def box_equal(self, ex, box, a, b):
+        if a is None and isinstance(b, DictVal):
+            a = empty_dict(b.kty, b.vty)
+        if b is None and isinstance(a, DictVal):
+            b = empty_dict(a.kty, a.vty)
         if isinstance(a, DictVal) and isinstance(b, DictVal):
             return z3.And(a.keys == b.keys, a.vals == b.vals)
         if a is None and b is None:
@@ -573,6 +577,8 @@ class SpecLib:
         return VBox("dict", DictVal(kty, vty, ak, av), "specdict")
 
     def _flat_sorts(self, kind):
+        if isinstance(kind, tuple) and kind[0] == "list":
+            return [sort_of(kind)]
         if kind == "int":
             return [I]
         if kind.startswith("opt:"):
@@ -586,6 +592,10 @@ class SpecLib:
         raise Unsupported("rec arg kind %s" % kind)
 
     def _flatten(self, kind, v):
+        if isinstance(v, VOpt) and not (isinstance(kind, str) and kind.startswith("opt:")):
+            v = v.val               # total reading: the value of a known-non-None optional
+        if isinstance(kind, tuple) and kind[0] == "list":
+            return [self.seqval(v).t]
         if kind == "int":
             return [unwrap("int", v)]
         if kind.startswith("opt:"):
@@ -605,6 +615,9 @@ class SpecLib:
         raise Unsupported("rec arg kind %s" % kind)
 
     def _formal(self, kind, nm):
+        if isinstance(kind, tuple) and kind[0] == "list":
+            t = z3.Const(fresh_name("rf_" + nm), sort_of(kind))
+            return [t], VSeq("list", kind[1], t)
         if kind == "int":
             t = z3.Int(fresh_name("rf_" + nm))
             return [t], VInt(t)
